@@ -26,7 +26,7 @@ type Rec struct {
 	Meth    string   `json:"methylation"`
 	Org     string   `json:"organism"`
 	Src     string   `json:"source"`
-	Letters string   `json:"suppliers"` // the <7> line as written
+	Letters string   `json:"suppliers"`  // the <7> line as written
 	Refs    []string `json:"references"` // first line follows <8>, the rest are untagged lines
 }
 
